@@ -226,9 +226,16 @@ func genParse(t *rapid.T) parseCase {
 		data = append([]byte{version}, rapid.SliceOfN(rapid.Byte(), plen, plen).Draw(t, "payload")...)
 	}
 	var s string
-	if h.Pick(t, "symk", 8, 1) == 0 {
+	switch h.Pick(t, "symk", 8, 2, 1) {
+	case 0:
 		s = ref.EncodeSymbols(hrp, ref.ToSymbols(data))
-	} else { // arbitrary trailing symbol: padding faults
+	case 1: // non-zero padding bits in the last data symbol (checksum still correct)
+		syms := ref.ToSymbols(data)
+		if npad := len(syms)*5 - len(data)*8; npad > 0 && len(syms) > 0 {
+			syms[len(syms)-1] |= byte(rapid.IntRange(1, 1<<uint(npad)-1).Draw(t, "padbits"))
+		}
+		s = ref.EncodeSymbols(hrp, syms)
+	default: // arbitrary trailing symbol: padding faults
 		syms := ref.ToSymbols(data)
 		syms = append(syms, byte(rapid.IntRange(0, 31).Draw(t, "extra")))
 		s = ref.EncodeSymbols(hrp, syms)
